@@ -22,6 +22,8 @@ type Bounds struct {
 	MaxPerm  int  // cap on alternatives per map range (0 = all)
 	NoRace   bool // disable the happens-before detector
 	NoPrune  bool // disable happens-before state caching
+	Shard    int  // this process explores the top-level branches with index % NShards == Shard
+	NShards  int  // 0/1 = no sharding
 	MaxExec  int  // budget (0 = none); hitting it marks the run capped
 	Deadline time.Time
 }
@@ -51,6 +53,7 @@ func Explore(b Bounds, body func(), check func(s *vsched.Sched, cost [2]int) boo
 		dev int
 	}
 	visited := map[vkey]int{}
+	topIdx := -1
 	var rec func(prefix []int, cost [2]int)
 	rec = func(prefix []int, cost [2]int) {
 		if stop {
@@ -62,6 +65,10 @@ func Explore(b Bounds, body func(), check func(s *vsched.Sched, cost [2]int) boo
 			return
 		}
 		s := vsched.Run(prefix, func(s *vsched.Sched) { s.NoRace = b.NoRace; s.MaxPerm = b.MaxPerm }, body)
+		if prefix == nil && b.NShards > 1 && b.Shard != 0 {
+			// the root execution is accounted (and checked) by shard 0 only
+			goto branches
+		}
 		st.Executions++
 		st.Transitions += int64(s.Steps)
 		st.Points += int64(len(s.Points))
@@ -82,6 +89,7 @@ func Explore(b Bounds, body func(), check func(s *vsched.Sched, cost [2]int) boo
 			stop = true
 			return
 		}
+	branches:
 		ch := s.Choices()
 		pts := s.Points
 		for i := len(prefix); i < len(pts); i++ {
@@ -109,6 +117,12 @@ func Explore(b Bounds, body func(), check func(s *vsched.Sched, cost [2]int) boo
 				}
 				if c[0] > b.Preempt || c[1] > b.OrderDev {
 					continue
+				}
+				if prefix == nil && b.NShards > 1 {
+					topIdx++
+					if topIdx%b.NShards != b.Shard {
+						continue
+					}
 				}
 				np := make([]int, i+1)
 				copy(np, ch[:i])
@@ -256,17 +270,18 @@ func (r *Report) Merge(o *Report) {
 
 // Job is one independently runnable part of a property check.
 type Job struct {
-	Name string
-	Run  func(r *Report)
+	Name   string
+	Run    func(r *Report)
+	Weight int // scheduling hint: heavier jobs are started first
 }
 
 // Check is the registration of one property.
 type Check struct {
-	Prop      string
-	Jobs      func(tier string) []Job
-	Rule      string // how cases are enumerated / what counts as a distinct outcome
-	Assume    []string
-	MinOutcomes int  // vacuity guard: at least this many distinct outcomes on the unchanged tree
+	Prop        string
+	Jobs        func(tier string) []Job
+	Rule        string // how cases are enumerated / what counts as a distinct outcome
+	Assume      []string
+	MinOutcomes int // vacuity guard: at least this many distinct outcomes on the unchanged tree
 }
 
 var Registry = map[string]*Check{}
